@@ -27,7 +27,7 @@ import aiofiles.os
 # from charset_normalizer import from_bytes
 
 if TYPE_CHECKING:
-    from collections.abc import AsyncIterator, Callable
+    from collections.abc import AsyncIterator, Callable, Iterator
     from email.message import EmailMessage
     from typing import IO
 
@@ -81,6 +81,26 @@ class MH(mailbox.MH):
         self._locked: bool = False
         path = str(path)
         super().__init__(path, factory=factory, create=create)  # type: ignore[arg-type]
+
+    ####################################################################
+    #
+    def iterkeys(self) -> "Iterator[int]":  # type: ignore[override]
+        """
+        Return an iterator over the message keys of this folder.
+
+        Every entry of an MH folder that is just digits is a message --
+        except that a sub-folder may be named like that too (eg:
+        `archive/2024`). `mailbox.MH` does not tell them apart: the
+        sub-folder turns up as a message that can not be read.
+        """
+        with os.scandir(self._path) as entries:
+            return iter(
+                sorted(
+                    int(entry.name)
+                    for entry in entries
+                    if entry.name.isdigit() and not entry.is_dir()
+                )
+            )
 
     ####################################################################
     #
